@@ -126,7 +126,17 @@ class C09(GProp):
             fails.append(((1,), 'failed (%s) although the reference succeeds' % sexp.dump(v)[:100]))
         elif ref[0] == 'fail' and kind == 'ok':
             fails.append(((1,), 'succeeded although the reference fails (%s)' % ref[1]))
+        if peg.reference.lost_met and not fails:
+            # a filter wrapper entered at a parse start ate tokens its filter hides, for good: a later sibling no longer sees
+            # them (the reference follows the code there). The recorded C05 finding, seen through C09's last sentence.
+            return [((1,), '[parse-start-filter-change] a filter wrapper entered at a parse start makes the tokens its filter hides unavailable to later siblings')]
         return fails
+
+    def classify(self, ct, f):
+        what = str(f.get('detail', {}).get('what', ''))
+        if f.get('kind') == 'oracle' and what.startswith('[parse-start-filter-change]'):
+            return 'C09-filter-change-at-parse-start'
+        return None
 
     def strip_probes(self, g):
         if isinstance(g, list) and g and g[0] == 'probe':
